@@ -9,7 +9,7 @@
    followed by Print Assumptions, and Examples (non-vacuity, the monitor rejects bad traces). *)
 From SC Require Import Lib.Prelude Lib.Int Lib.Host Model.FeeForwarder Proofs.FeeForwarder
   Run.C19 Proofs.FeeForwarderAllow Proofs.FeeForwarderFwd Proofs.C19Monitor Proofs.C19Final
-  Proofs.C19Debit Proofs.C19AuthTree Proofs.C19Persist Proofs.C19Examples.
+  Proofs.C19Debit Proofs.C19AuthTree Proofs.C19Persist Proofs.C19Examples Proofs.C19Classes.
 
 (* A forwarded call succeeds only with an authorisation entry SIGNED BY THE USER whose root
    invocation is the forwarder's `forward` over exactly (fee token, maximum fee, expiration ledger,
@@ -251,6 +251,112 @@ Theorem C19_monitor_accepts_model : forall (c : cfg) (cs : list call),
 Proof. exact check_accepts_model. Qed.
 Print Assumptions C19_monitor_accepts_model.
 
+(* ---- situation classes (special addresses, collaborators, aliasing, index-valued storage) ---- *)
+
+(* NO ADDRESS IS EXEMPT FROM SIGNING.  Whatever a successful call names as user, relayer, operator or
+   owner - an account, the forwarder's OWN address, the other forwarder, a fee token, a target -
+   the attached entries contain one signed by that very address (for the exact root: see
+   C19_needs_user_auth_over_exact_args).  A contract without __check_auth cannot sign, so the real
+   code must refuse every call naming one as a party: the harness generates each such call without
+   an entry for the contract and the monitor requires the entry. *)
+Theorem C19_every_party_signs : forall c st cl st' ret,
+  step_ok c st cl = Ok (st', ret) ->
+  match cl with
+  | Forward _ _ _ _ _ _ _ _ user relayer au =>
+      (exists e, In e au /\ en_who e = user) /\ (exists e, In e au /\ en_who e = relayer)
+  | SetTok _ _ operator au => exists e, In e au /\ en_who e = operator
+  | Sweep _ _ operator au => exists e, In e au /\ en_who e = operator
+  | Approve _ owner _ _ _ au => exists e, In e au /\ en_who e = owner
+  | Advance _ => True
+  | Mint _ _ _ => True
+  end.
+Proof. exact every_party_signs. Qed.
+Print Assumptions C19_every_party_signs.
+
+(* ... hence: a call naming as a party an address [a] nobody signed for fails and changes nothing *)
+Theorem C19_unsigned_party_refused : forall c st cl a,
+  (forall e, In e (match cl with
+                   | Forward _ _ _ _ _ _ _ _ _ _ au | SetTok _ _ _ au | Sweep _ _ _ au | Approve _ _ _ _ _ au => au
+                   | _ => []
+                   end) -> en_who e <> a) ->
+  match cl with
+  | Forward _ _ _ _ _ _ _ _ user relayer _ => a = user \/ a = relayer
+  | SetTok _ _ operator _ | Sweep _ _ operator _ => a = operator
+  | Approve _ owner _ _ _ _ => a = owner
+  | _ => False
+  end ->
+  step c st cl = (st, Fail).
+Proof. exact unsigned_party_refused. Qed.
+Print Assumptions C19_unsigned_party_refused.
+
+(* THE COLLABORATORS EXIST AND ARE OF THE RIGHT KIND: a forward succeeds only if the fee token is a
+   deployed fee token (not an account, not a forwarder, not a contract of another kind) and the target
+   is a deployed contract other than the forwarder itself. *)
+Theorem C19_collaborators_exist :
+  forall c st k tok fee max exp target fn args user relayer au st' ret,
+  1 <= min_temp_ttl (c_host c) ->
+  step_ok c st (Forward k tok fee max exp target fn args user relayer au) = Ok (st', ret) ->
+  In tok (c_tokens c) /\
+  (In target (c_tokens c) \/ (In target (c_targets c) /\ target <> fwd_addr c k)).
+Proof. exact forward_collaborators. Qed.
+Print Assumptions C19_collaborators_exist.
+
+(* THE EXACT EFFECT OF A SWEEP, WHOEVER THE RECIPIENT IS (an account, the operator, the other forwarder,
+   the token contract's own address, the forwarder ITSELF): a manager signed it, the whole balance of
+   the permissioned forwarder (positive) moves to the recipient, nothing else changes; with the
+   forwarder itself as recipient no balance changes at all. *)
+Theorem C19_sweep_exact : forall c st tok recipient operator au st' ret,
+  step_ok c st (Sweep tok recipient operator au) = Ok (st', ret) ->
+  In operator (c_managers c) /\ (exists e, In e au /\ en_who e = operator) /\
+  ret = balance (get_tok st tok) (c_fp c) /\ 0 < ret /\
+  (forall t h, balance (get_tok st' t) h =
+     balance (get_tok st t) h +
+     (if N.eqb t tok then (if N.eqb h recipient then ret else 0) - (if N.eqb h (c_fp c) then ret else 0) else 0)) /\
+  (recipient = c_fp c -> forall t h, balance (get_tok st' t) h = balance (get_tok st t) h) /\
+  (forall t, t_total (get_tok st' t) = t_total (get_tok st t)) /\
+  (forall t o s, alw_get (get_tok st' t) o s = alw_get (get_tok st t) o s) /\
+  al st' = al st /\ logs st' = logs st /\ now st' = now st.
+Proof. exact sweep_exact. Qed.
+Print Assumptions C19_sweep_exact.
+
+(* ALIASING user = relayer (permissionless example: the payer is also the fee recipient): in every
+   reachable state the fee returns to the payer - no balance moves beyond what the signed target call
+   moves - but the approval is made and spent all the same (allowance = max - fee until exp), the fee
+   bounds hold and BOTH roots (the user tuple and the whole argument list) are signed by that account. *)
+Theorem C19_alias_user_is_relayer : forall c cs tok fee max exp target fn args user au st' ret,
+  1 <= min_temp_ttl (c_host c) ->
+  wf_call c (Forward Permissionless tok fee max exp target fn args user user au) = true ->
+  let st := run c cs in
+  step_ok c st (Forward Permissionless tok fee max exp target fn args user user au) = Ok (st', ret) ->
+  let mv := tgt_moves c target fn args in
+  (forall t h, balance (get_tok st' t) h = balance (get_tok st t) h + tgt_delta mv target t h) /\
+  (forall t o s, allowance_data (now st') (get_tok st' t) o s =
+     tgt_alw mv target t o s
+       (if N.eqb t tok && N.eqb o user && N.eqb s (c_fl c) then (max - fee, exp)
+        else allowance_data (now st) (get_tok st t) o s)) /\
+  0 < fee <= max /\
+  (exists e, In e au /\ en_who e = user /\
+     en_root e = {| f_contract := c_fl c; f_name := F_FORWARD;
+                    f_args := [VA tok; VI max; VI exp; VA target; VS fn; VL args] |}) /\
+  (exists e, In e au /\ en_who e = user /\
+     en_root e = {| f_contract := c_fl c; f_name := F_FORWARD;
+                    f_args := [VA tok; VI fee; VI max; VI exp; VA target; VS fn; VL args; VA user; VA user] |}).
+Proof. exact forward_alias_user_relayer. Qed.
+Print Assumptions C19_alias_user_is_relayer.
+
+(* INDEX-VALUED STORAGE over every history of enable / disable (any number of listed addresses, removed
+   in any order, re-added): Token(i) = t exactly when i < Count and TokenIndex(t) = i - the two maps
+   are inverse to each other NUMERICALLY - every slot below Count is filled and no index points at or
+   past Count. *)
+Theorem C19_index_roundtrip : forall c cs,
+  1 <= min_temp_ttl (c_host c) ->
+  let a := al (run c cs) in
+  (forall i t, alist_get i (al_tok a) = Some t <-> ((i < al_count a)%N /\ alist_get t (al_idx a) = Some i)) /\
+  (forall i, (i < al_count a)%N -> exists t, alist_get i (al_tok a) = Some t) /\
+  (forall t i, alist_get t (al_idx a) = Some i -> (i < al_count a)%N).
+Proof. exact index_roundtrip. Qed.
+Print Assumptions C19_index_roundtrip.
+
 (* ---- non-vacuity: a concrete history with successful forwards through both examples ---- *)
 Example C19_example_run :
   outcomes ex_trace = [Ok 0; Ok 1; Ok 0; Ok 2; Fail; Ok 0; Ok 0; Fail; Ok 0; Ok 3; Fail;
@@ -372,4 +478,48 @@ Example C19_monitor_rejects_token_target_overpaid :
 Proof. vm_compute. reflexivity. Qed.
 Example C19_monitor_rejects_token_target_allowance_kept :
   snd (fst (check (tamper 16 (on_obs (put_alw 1 (30, 300))) ex_trace))) = 17%N.
+Proof. vm_compute. reflexivity. Qed.
+
+(* ---- situation classes: a concrete world whose observed tables contain the CONTRACTS themselves ---- *)
+Example C19_classes_example_run :
+  outcomes ex2_trace = [Ok 0; Fail; Fail; Ok 0; Fail; Ok 0; Ok 1; Ok 10; Ok 10; Fail; Fail; Fail; Fail; Ok 0; Fail]
+  /\ check ex2_trace = (0%N, 0%N, 0%N)
+  /\ forallb (wf_call ex2_cfg) ex2_calls = true
+  /\ enumeration (al (run ex2_cfg ex2_calls)) = [Some 2%N]
+  /\ alist_get 2%N (al_idx (al (run ex2_cfg ex2_calls))) = Some 0%N.
+Proof. vm_compute. repeat split; reflexivity. Qed.
+(* #1 relayer = the permissionless forwarder itself, #2 user = the other forwarder: accepted although the
+   contract signed nothing *)
+Example C19_monitor_rejects_contract_relayer_accepted :
+  snd (fst (check (tamper 1 (on_out (Ok 1)) ex2_trace))) = 2%N.
+Proof. vm_compute. reflexivity. Qed.
+Example C19_monitor_rejects_contract_user_accepted :
+  snd (fst (check (tamper 2 (on_out (Ok 1)) ex2_trace))) = 3%N.
+Proof. vm_compute. reflexivity. Qed.
+(* #4 the list holds only the forwarder's own address: a real token is accepted nevertheless *)
+Example C19_monitor_rejects_list_of_own_address_ignored :
+  snd (fst (check (tamper 4 (on_out (Ok 1)) ex2_trace))) = 5%N.
+Proof. vm_compute. reflexivity. Qed.
+(* #13 the own address has left the non-empty list but is_allowed_fee_token(own address) still says true /
+   TokenIndex of the token that was swapped into slot 0 still reads 1 *)
+Example C19_monitor_rejects_own_address_always_allowed :
+  snd (fst (check (tamper 13 (on_obs (set_allowed_obs [true; false; true; false; false])) ex2_trace))) = 14%N.
+Proof. vm_compute. reflexivity. Qed.
+Example C19_monitor_rejects_stale_index_after_swap :
+  snd (fst (check (tamper 13 (on_obs (set_idx [Some 1%N; None; None; None; None])) ex2_trace))) = 14%N.
+Proof. vm_compute. reflexivity. Qed.
+(* #7 a sweep to the forwarder itself loses the funds *)
+Example C19_monitor_rejects_sweep_to_itself_losing_funds :
+  snd (fst (check (tamper 7 (on_obs (bump_bal 2 (-10))) ex2_trace))) = 8%N.
+Proof. vm_compute. reflexivity. Qed.
+(* #10 the target is an account (no call can have happened), #11 the fee token is a contract of another
+   kind, #12 fee = 2^64 + 1 above the maximum 2: reported as successful *)
+Example C19_monitor_rejects_account_target_accepted :
+  snd (fst (check (tamper 10 (on_out (Ok 0)) ex2_trace))) = 11%N.
+Proof. vm_compute. reflexivity. Qed.
+Example C19_monitor_rejects_other_contract_as_fee_token :
+  snd (fst (check (tamper 11 (on_out (Ok 1)) ex2_trace))) = 12%N.
+Proof. vm_compute. reflexivity. Qed.
+Example C19_monitor_rejects_fee_above_max_low_bits_within :
+  snd (fst (check (tamper 12 (on_out (Ok 1)) ex2_trace))) = 13%N.
 Proof. vm_compute. reflexivity. Qed.
